@@ -16,6 +16,7 @@ EXPLANATION = (
     "predictor by shared reference, the workspace has no static mut / interior-mutable static / thread_local, so a call's "
     "result is a function of (*self, *sentence) only. R08.5: lifetime witness (a predicted sentence cannot outlive its predictor)."
 )
+THOROUGH_CONFIGS = [C.NO_TAG, C.MINIMAL]
 NOT_DECIDED = ["equality of outputs as values", "behaviour of dependencies' unsafe code (daachorse) under concurrent shared access"]
 
 ALLOWED_PREDICT = {"text", "char_types", "str_to_char_pos", "char_to_str_pos", "boundaries"}
@@ -23,8 +24,7 @@ ALLOWED_TAGS = ALLOWED_PREDICT | {"char_pma_states", "type_pma_states"}
 
 
 def run(chk):
-    w = facts.world("W")
-    chk.configs.add("W")
+    w = C.world_for(chk)
     for rid, txt in (("R05.1", "kill sets of the updates (shared with C05)"), ("R05.2", "error paths reset (shared with C05)"),
                      ("R08.2", "prediction reads no history-dependent sentence field before overwriting it"),
                      ("R08.3", "automaton state / predictor typestate"), ("R08.4", "no shared mutable state behind &Predictor"), ("R08.5", "lifetime witness")):
@@ -32,6 +32,8 @@ def run(chk):
     c05.kill_rules(chk, w)
     R = effects.ReadsBeforeKill(w, C.summaries(w))
     for fn, allowed in ((C.P + "::predict", ALLOWED_PREDICT), (C.P + "::predict_tags", ALLOWED_TAGS)):
+        if chk.config != "W" and w.body(fn) is None:
+            continue   # tag prediction is not part of this configuration
         b = C.body(w, fn)
         chk.fn(fn)
         r = R.rbk(fn)
@@ -45,9 +47,10 @@ def run(chk):
                    % (fn, f), site=C.site(b), sample={"fn": fn, "reads_before_kill": got} if f == "text" else None)
     for fn in sorted(R.analysed):
         chk.fn(fn)
-    chk.floor("R08.2", "functions analysed", len(R.analysed), 10)
+    chk.floor("R08.2", "functions analysed", len(R.analysed), 10, other=5)
     # R08.3
-    c06.r063(chk, w)
+    if w.body(C.P + "::predict_tags") is not None:
+        c06.r063(chk, w)
     writers = {}
     for bd in w.all_bodies("vaporetto"):
         if bd.promoted is not None:
@@ -68,12 +71,15 @@ def run(chk):
     chk.ob("R08.3", "set_predictor:callers", callers == [C.P + "::predict"], "set_predictor is called from %s; only Predictor::predict may register itself" % callers)
 
     # ---- R08.4
-    witness.check(chk, "R08.4", "W084SendSync", 0, 1, "Predictor/Model must be Send + Sync and Sentence Send")
+    if chk.config == "W":
+        witness.check(chk, "R08.4", "W084SendSync", 0, 1, "Predictor/Model must be Send + Sync and Sentence Send")
     for p in (C.P, "vaporetto::predictor::PredictorData", "vaporetto::model::Model"):
         a = w.adt(p)
         chk.ob("R08.4", "no-interior-mutability:%s" % p.split("::")[-1], a is not None and a["deep_cell"] is None,
                "type %s can reach an UnsafeCell: %s -- prediction through a shared &Predictor could then mutate shared state" % (p, a and a["deep_cell"]), site=a and a["span"],
                sample={"type": p})
+    if chk.config != "W":
+        return   # witnesses and the workspace-wide scans are configuration independent
     pos = w.adt("vaporetto::char_scorer::CharWeightMerger")
     chk.ob("R08.4", "positive-example:RefCell-is-found", pos is not None and pos["deep_cell"] is not None and "UnsafeCell" in pos["deep_cell"],
            "the deep interior-mutability walk no longer finds the RefCell inside CharWeightMerger (positive example)", nontrivial=False)
